@@ -670,8 +670,29 @@ func runCase(rt *rapid.T) {
 		synctest.Wait()
 		w.check(w.trace[len(w.trace)-1], strict)
 	}
+	// Shutdown last: whatever is still waiting returns, and what it returns is an error or — never — data that was
+	// not stored ("a blocking query returns only stored data")
+	pendingAtShutdown := 0
+	for _, q := range w.queries {
+		if !q.cancelled && !finished(q) {
+			pendingAtShutdown++
+		}
+	}
+	w.db.Shutdown()
+	synctest.Wait()
+	for _, q := range w.queries {
+		if q.cancelled {
+			continue
+		}
+		if !finished(q) {
+			rt.Fatalf("STILL BLOCKED AFTER SHUTDOWN: query %v (trace %v)", q.key, w.trace)
+		}
+		if q.err == nil {
+			w.answerOK(q.key, q.val, "at shutdown")
+		}
+	}
 	nontrivial := blockedThenServed || clashSeen || expirySeen
-	vstat.Case(strings.Join(w.trace, ";"), nontrivial, cls("blocked_then_served", blockedThenServed), cls("clash_rejected", clashSeen), cls("expiry", expirySeen))
+	vstat.Case(strings.Join(w.trace, ";"), nontrivial, cls("blocked_then_served", blockedThenServed), cls("clash_rejected", clashSeen), cls("expiry", expirySeen), cls("queries_pending_at_shutdown", pendingAtShutdown > 0))
 	if blockedThenServed && clashSeen && vstat.WantSample("blocked+clash") {
 		vstat.Sample("blocked+clash", map[string]any{"ops": w.trace})
 	}
